@@ -33,7 +33,21 @@ soup = st.fixed_dictionaries({"frame": st.sampled_from(FRAMES), "fill": st.lists
                               "glue": st.sampled_from([" ", " ", " ", ""])})
 
 
+# ---- constant expressions over every literal kind and operator (what the parse-time folding passes work on), in a few frames
+LEAVES = ["0", "1", "2", "7u", "3l", "5ull", "0x1F", "0b11", "017", "1.5", "2.0f", "3.0l", "1e3", "true", "false", "'a'", "\"s\"", "NaN", "Infinity", "2147483647",
+          "9223372036854775807", "18446744073709551615", "x"]
+BINOPS = ["+", "-", "*", "/", "%", "<<", ">>", "&", "|", "^", "&&", "||", "==", "!=", "<", "<=", ">", ">="]
+constexpr = st.recursive(st.sampled_from(LEAVES), lambda ch: st.one_of(
+    st.tuples(ch, st.sampled_from(BINOPS), ch).map(lambda t: "%s %s %s" % t), st.tuples(ch, st.sampled_from(BINOPS), ch).map(lambda t: "%s %s %s" % t),
+    st.tuples(st.sampled_from(["-", "+", "!", "~"]), ch).map(lambda t: "%s%s" % t), ch.map(lambda e: "(%s)" % e)), max_leaves=5)
+CFRAMES = ["@", "var v = @", "def f() { @ }", "def f(x) { x + @ }", "f(@)", "[@, @]", "if (@) { 1 }", "\"${@}\"", "for (var i = 0; i < @; ++i) { }", "switch (@) { case (@) { } }", "x = @"]
+folded = st.fixed_dictionaries({"cframe": st.sampled_from(CFRAMES), "exprs": st.lists(constexpr, min_size=2, max_size=2)})
+
+
 def soup_text(c):
+    if "cframe" in c:
+        parts = c["cframe"].split("@")
+        return parts[0] + "".join(c["exprs"][i % 2] + p_ for i, p_ in enumerate(parts[1:]))
     parts = c["frame"].split("@")
     out = parts[0]
     for i, p_ in enumerate(parts[1:]):
@@ -44,7 +58,7 @@ def soup_text(c):
 def strategy():
     return st.one_of(st.fixed_dictionaries({"prog": progs.programs(with_faults=False), "muts": st.lists(mutation, min_size=0, max_size=4),
                                             "splice": st.one_of(st.none(), st.integers(0, 400))}),
-                     soup, soup)
+                     soup, soup, folded)
 
 
 INSERTS = [")", "]", "}", "(", "[", "{", "\"", "'", "\\", "${", "/*", "*/", "//", "#", "0x", "1.5e", "08", "..", "::", ":=", "`", "\x00", "\xff", "\r", ";;", ",", "def", "fun", "class", "else", "catch", "\\U"]
@@ -97,7 +111,7 @@ def check_soup(c, ctx):
     except Violation as v:
         v.detail = dict(getattr(v, "detail", None) or {}, input=inp)
         raise
-    ctx.classify("soup_outcome", r["outcome"])
+    ctx.classify("constant_expression_outcome" if "cframe" in c else "soup_outcome", r["outcome"])
     if r["nontrivial"]:
         ctx.nontrivial(inp)
     ctx.sample({"input": inp[:300], "outcome": r["outcome"]}, limit=3)
@@ -106,7 +120,7 @@ def check_soup(c, ctx):
 
 
 def check(c, ctx):
-    if "frame" in c:
+    if "frame" in c or "cframe" in c:
         return check_soup(c, ctx)
     prog = json.loads(json.dumps(c["prog"]))
     text = refchai.Printer(prog.get("layout")).program(prog)
@@ -136,7 +150,7 @@ def root_cause(f):
 def run(ev, tier, bins, report):
     import vlib
     vlib.ensure_built("runner")
-    n = 3200 if tier == "quick" else 80000
+    n = 4000 if tier == "quick" else 100000
     sub = vlib.Evidence("C01", tier)
     failures = hyp.run("c01_mut", sub, tier, n)
     ev.cov["mutated_programs"] = {k: v for k, v in sub.cov.items() if k not in ("rule", "samples")}
